@@ -776,8 +776,10 @@ pub fn step(app: &mut SApp, nm: &Names, st: &SState, op: &SOp, cfg: &Cfg, ops_al
             let mut lo = vec![0u128; pre.bal.len()];
             let mut hi = vec![0u128; pre.bal.len()];
             let mut rest = vec![];
+            let mut matured = vec![0u32; pre.bal.len()];
             for q in h.queue.drain(..) {
                 if q.payout_at <= new_now {
+                    matured[q.d as usize] += 1;
                     let f = q.amount.floor_u128();
                     hi[q.d as usize] += f;
                     lo[q.d as usize] += f.saturating_sub(q.slashes as u128);
@@ -789,7 +791,7 @@ pub fn step(app: &mut SApp, nm: &Names, st: &SState, op: &SOp, cfg: &Cfg, ops_al
             for i in 0..pre.bal.len() {
                 let got = post.bal[i].wrapping_sub(pre.bal[i]);
                 if post.bal[i] < pre.bal[i] || got < lo[i] || got > hi[i] {
-                    let class = if hi[i] == 0 { "block-update-paid-without-matured-unbonding" } else if got < lo[i] { "matured-unbonding-underpaid" } else { "matured-unbonding-overpaid" };
+                    let class = if matured[i] == 0 { "block-update-paid-without-matured-unbonding" } else if got < lo[i] { "matured-unbonding-underpaid" } else { "matured-unbonding-overpaid" };
                     report(class, case("an undelegated amount is paid back in full (reduced only by slashes) by the first block update at or after the unbonding period, and not before", json!({"account_index": i, "paid": (post.bal[i] as i128 - pre.bal[i] as i128).to_string(), "allowed": format!("[{}, {}]", lo[i], hi[i]), "now_ns": new_now.to_string()})));
                 }
             }
@@ -1047,6 +1049,7 @@ pub fn alphabet_c14(tier: Tier, full: bool) -> Vec<SOp> {
             SOp::SetBlock { secs: 1 },
             SOp::SetWithdraw { d: 0, to: 0 },
             SOp::Redelegate { d: 0, src: 1, dst: 0, amt: 1 },
+            SOp::Redelegate { d: 1, src: 0, dst: 0, amt: 1 },
             SOp::Undelegate { d: 0, v: 1, amt: 1, denom: 0 },
             SOp::Withdraw { d: 1, v: 0 },
         ]);
@@ -1069,6 +1072,10 @@ pub fn invalid_ops() -> Vec<SOp> {
         SOp::Redelegate { d: 1, src: 0, dst: 1, amt: 1_000 },
         SOp::Redelegate { d: 0, src: 2, dst: 0, amt: 1 },
         SOp::Redelegate { d: 0, src: 0, dst: 2, amt: 1 },
+        // source and destination the same validator: still more than is delegated / unknown
+        SOp::Redelegate { d: 0, src: 0, dst: 0, amt: 1_000 },
+        SOp::Redelegate { d: 1, src: 1, dst: 1, amt: 1_000 },
+        SOp::Redelegate { d: 0, src: 2, dst: 2, amt: 1 },
         SOp::RedelegateForeign { d: 0, src: 0, dst: 1, amt: 1 },
         SOp::RedelegateForeign { d: 1, src: 0, dst: 1, amt: 1 },
         SOp::RedelegateForeign { d: 1, src: 1, dst: 0, amt: 2 },
